@@ -39,13 +39,19 @@ val tl : 'a1 list -> 'a1 list
 
 val nth_error : 'a1 list -> nat -> 'a1 option
 
+val removelast : 'a1 list -> 'a1 list
+
 val rev : 'a1 list -> 'a1 list
 
 val concat : 'a1 list list -> 'a1 list
 
+val map : ('a1 -> 'a2) -> 'a1 list -> 'a2 list
+
 val flat_map : ('a1 -> 'a2 list) -> 'a1 list -> 'a2 list
 
 val fold_left : ('a1 -> 'a2 -> 'a1) -> 'a2 list -> 'a1 -> 'a1
+
+val find : ('a1 -> bool) -> 'a1 list -> 'a1 option
 
 val skipn : nat -> 'a1 list -> 'a1 list
 
@@ -144,6 +150,8 @@ val blen : str -> nat
 val valid_char : n -> bool
 
 val bsplit : str -> nat -> (str * str) option
+
+val is_boundary : str -> nat -> bool
 
 val str_eqb : str -> str -> bool
 
@@ -281,6 +289,14 @@ val h_step : uData -> hist -> hop -> hist * hout
 val h_run : uData -> hist -> hop list -> hist * hout list
 
 val file_version_v2 : n list
+
+val default_break_chars : n list
+
+val escape_char : n
+
+val double_quotes_special_chars : n list
+
+val double_quotes_escape_char : n
 
 val header : n list
 
@@ -421,3 +437,54 @@ val direct_all : (str -> str list) -> (str -> vres) option -> str -> dres list
 val brackets_go : str -> n list -> vres
 
 val bracket_validator : str -> vres
+
+val mem_N : n -> n list -> bool
+
+val is_break0 : n -> bool
+
+val is_dq_special : n -> bool
+
+type quote =
+| QDouble
+| QSingle
+| QNone
+
+val unescape : n -> str -> str
+
+val escape : n -> (n -> bool) -> quote -> str -> str
+
+val extract_go : n -> (n -> bool) -> n list -> nat option -> nat -> nat
+
+val extract_word : n -> (n -> bool) -> str -> nat * str
+
+type scan_mode =
+| MNormal
+| MDouble
+| MEscape
+| MEscapeInDouble
+| MSingle
+
+val scan : str -> scan_mode -> nat -> nat -> scan_mode * nat
+
+val find_unclosed_quote : str -> (nat * quote) option
+
+val all_adjacent_agree : nat -> n list list -> bool
+
+val lcp_len : nat -> nat -> n list list -> nat
+
+val backoff : str -> nat -> nat
+
+val longest_common_prefix : str list -> str option
+
+type dentry = { d_name : str; d_is_dir : bool; d_children : (str * bool) list }
+
+val sep : n
+
+val rsplit_sep : str -> str * str
+
+val lookup_dir : dentry list -> str -> (str * bool) list option
+
+val filename_complete :
+  dentry list -> str -> n option -> (n -> bool) -> quote -> (str * str) list
+
+val complete_path : dentry list -> str -> nat * (str * str) list
